@@ -860,6 +860,13 @@ async fn main(plan: Plan) -> Outcome {
                         }
                     }
                 }
+                // What the node sent counts only if the call got it: a call that failed (its
+                // connection may have died with the answer on the way) leaves the handle's
+                // knowledge open.
+                if o.result.is_err() {
+                    expect = None;
+                    continue;
+                }
                 for e in &frames {
                     match e.answer {
                         Answer::Unprepared => expect = None,
@@ -900,6 +907,10 @@ async fn main(plan: Plan) -> Outcome {
                             ),
                         );
                     }
+                }
+                if o.result.is_err() {
+                    learnt = false;
+                    continue;
                 }
                 for e in &frames {
                     match e.answer {
